@@ -21,6 +21,8 @@ def gen_case(seed: int, tier: str, index: int) -> Dict[str, Any]:
     rng = random.Random(mix(seed, "c20.case"))
     sub = SUBS[index % len(SUBS)]
     sched = {"cost_p": rng.choice([0.0, 0.2]), "cost_max": 0.003}
+    if rng.random() < 0.25:
+        sched.update(wall_jump_p=0.01, wall_jump_max=rng.choice([0.5, 60.0, 86400.0]))      # the wall clock steps; monotonic time does not
     cfg: Dict[str, Any] = {"sub": sub, "net": {"lat_min": 0.001, "lat_max": 0.004}, "sched": sched}
     plan: List[Dict[str, Any]] = []
     if sub == "sends":
